@@ -265,6 +265,14 @@ pub fn run_host(env: &Env, backend: Backend, build: Build, texts: &[(u32, String
 
     let mut cmd = Command::new(bin);
     cmd.env_clear();
+    // development aid only (tools/coverage.sh): pass selected variables of the driver through
+    if let Ok(keep) = std::env::var("SIM_KEEP_ENV") {
+        for k in keep.split(',') {
+            if let Ok(v) = std::env::var(k) {
+                cmd.env(k, v);
+            }
+        }
+    }
     for (k, v) in &cfg.env {
         cmd.env(k, v);
     }
